@@ -582,6 +582,13 @@ class VTerm:
             if keys.get("o") == "z":
                 raw = zlib.decompress(raw)
             digest = zlib.crc32(raw) ^ (len(raw) << 8)
+            if keys.get("f", "32") in ("24", "32"):
+                # raw pixel data: a terminal rejects an image without pixels, or whose data
+                # does not have exactly width x height x bytes-per-pixel bytes
+                sw, sv = int(keys.get("s", 0)), int(keys.get("v", 0))
+                if sw <= 0 or sv <= 0 or len(raw) != sw * sv * int(keys.get("f", "32")) // 8:
+                    ok = False
+                    self.malformed.append("kitty image data: s=%s v=%s f=%s with %d bytes" % (keys.get("s"), keys.get("v"), keys.get("f", "32"), len(raw)))
         except (binascii.Error, ValueError, zlib.error):
             ok = False
             self.malformed.append("kitty payload")
